@@ -21,7 +21,7 @@ pub static DEF: PropDef = PropDef {
     id: "C01",
     level: "fault_enumeration",
     engine: "ingest",
-    rule: "random phase: one run = a real Ingester (WAL EveryWrite on the shim disk, object-store catalog, flush_row_count 2..8, flush_interval 1..30 s, WAL segments of ~1..3 entries) with 2..4 writer tasks issuing 3..10 writes of 1..3 rows over two alternating schemas, the flush timer, and a fault profile drawn per run (fault-free / store request failures before+after effect and delays / disk ENOSPC-EIO-short-torn writes / node crashes at any quiescent point or inside a file operation, up to 3 crash-restart rounds incl. crashes during recovery), ended either by graceful shutdown or by crash+restart+shutdown; sweep phase (fault enumeration): for generated workloads, one run per (object-store request index of the fault-free run) x {crash before, crash after, fail before, fail after}; distinct = distinct (variant, grant/fault/crash sequence); non-trivial = completed AND (interleaved OR a fault/crash fired)",
+    rule: "random phase: one run = a real Ingester (WAL EveryWrite on the shim disk, object-store catalog, flush_row_count 2..8, flush_interval 1..30 s, WAL segments of ~1..3 entries) with 2..4 writer tasks issuing 3..10 writes of 1..3 rows over two alternating schemas, the flush timer, and a fault profile drawn per run (fault-free / store request failures before+after effect and delays / disk ENOSPC (also after a partial write)-EIO-short-torn writes with tokio's deferred error reporting / a failed fsync followed by power loss (dirty pages of the failed sync are dropped) / node crashes at any quiescent point or inside a file operation, up to 3 crash-restart rounds incl. crashes during recovery), ended either by graceful shutdown or by crash+restart+shutdown; sweep phase (fault enumeration): for generated workloads, one run per (object-store request index of the fault-free run) x {crash before, crash after, fail before, fail after}; distinct = distinct (variant, grant/fault/crash sequence); non-trivial = completed AND (interleaved OR a fault/crash fired)",
     quick_runs: 4000,
     thorough_runs: 60_000,
     run_cap_ms: 30_000,
@@ -154,7 +154,14 @@ fn scen(spec: RunSpec) -> ScenFut {
             Some((n, f))
         });
         let is_sweep = spec.variant != "random";
-        let profile = if is_sweep { 0 } else { sim::w(6) };
+        let profile = if is_sweep { 0 } else { sim::w(7) };
+        // profile 6 = "a failed fsync, later acknowledged writes behind it, then power loss": rows stay in the buffer
+        // (large flush threshold), entries share one segment, the run ends with a crash
+        if profile == 6 {
+            cfg.flush_row_count = 60;
+            cfg.flush_interval = Duration::from_secs(30);
+            cfg.wal.max_segment_size = 1 << 20;
+        }
         let post = sim::w_bool(50);
         let adv = [2u32, 8, 20][sim::w(3) as usize];
         let (d1, d2) = (1 + sim::w(3), 1 + sim::w(4));
@@ -190,6 +197,13 @@ fn scen(spec: RunSpec) -> ScenFut {
                 _ => {}
             }
         });
+        if profile == 6 {
+            let b = 1 + sim::w(2);
+            disk::with(|d| {
+                d.rnd_budget = b;
+                d.rnd_sync_eio_pm = 150;
+            });
+        }
         if profile == 4 || profile == 5 {
             let b = 1 + sim::w(3);
             disk::with(|d| {
@@ -200,15 +214,16 @@ fn scen(spec: RunSpec) -> ScenFut {
                 } else {
                     d.rnd_enospc_pm = 25;
                     d.rnd_eio_pm = 15;
+                    d.rnd_sync_eio_pm = 40;
                     d.rnd_short_pm = 30;
                     d.rnd_crash_pm = 10;
                 }
             });
         }
-        let ending_b = sim::w_bool(50);
+        let ending_b = sim::w_bool(50) || profile == 6;
         // a third of the runs use power-loss semantics for the WAL segments: bytes written but not yet synced do
         // not survive a crash (the property's precondition is a sync on every write)
-        let power_loss = sim::w(3) == 2;
+        let power_loss = sim::w(3) == 2 || profile == 6;
         disk::with(|d| d.power_loss = power_loss);
         sim::log(format!(
             "CONFIG variant={} profile={profile} writers={writers} flush_rows={} flush_interval={:?} segment={} post_gates={post} power_loss={power_loss} ending={}",
